@@ -47,8 +47,11 @@ func (s *c24Sys) wanting() map[string]bool {
 }
 
 // step performs one symbolic event; np is the number of openers in play.
-func (s *c24Sys) step(np int) {
-	switch rt.Choose("event", 5) {
+func (s *c24Sys) step(np int) { s.stepN(np, 5) }
+
+// stepN: nkinds = 4 leaves out the answering session (it does not touch the listener's tracker).
+func (s *c24Sys) stepN(np, nkinds int) {
+	switch rt.Choose("event", nkinds) {
 	case 0: // L starts (another) listen call; an older one is replaced
 		if len(s.listens) > 0 {
 			rt.Quiesce() // "newer" means: arrives at the relay after the older call was registered
@@ -98,11 +101,15 @@ func c24Bounds() (events, openers int) {
 func VerifC24Listen() {
 	rt.SchedBound(0, false)
 	rt.MapOrder(true)
-	k, np := c24Bounds()
+	// listen histories need four events (open, listen, close, re-open): quick uses one opener, thorough two
+	k, np := 4, 1
+	if rt.Tier() > 0 {
+		np = 2
+	}
 	s := c24New()
 	n := rt.IntRange("events", 1, k)
 	for i := 0; i < n; i++ {
-		s.step(np)
+		s.stepN(np, 4)
 		if i == n-1 || rt.Choose("settle", 2) == 1 {
 			rt.Quiesce()
 			if l := s.activeListen(); l != nil {
@@ -126,7 +133,10 @@ func VerifC24Listen() {
 func VerifC25Unique() {
 	rt.SchedBound(0, false)
 	rt.MapOrder(true)
-	k, np := c24Bounds()
+	k, np := 4, 1
+	if rt.Tier() > 0 {
+		np = 2
+	}
 	s := c24New()
 	n := rt.IntRange("events", 1, k)
 	for i := 0; i < n; i++ {
